@@ -3,6 +3,7 @@ Filter expression support for predicate pushdown and partition pruning.
 Converts user-friendly filter syntax to PyArrow filter expressions.
 """
 
+from collections.abc import Mapping
 from dataclasses import dataclass
 from enum import Enum
 from typing import TYPE_CHECKING, Any, Dict, List, Optional
@@ -98,6 +99,19 @@ def parse_filter_dict(filter_dict: Dict[str, Any]) -> List[FilterExpression]:
                         f"Filter on '{column}': '{op.value}' takes a list of values, "
                         f"got {type(value).__name__} - wrap a single value in a list"
                     )
+                if op in (FilterOp.IN, FilterOp.NOT_IN):
+                    if isinstance(value, Mapping):
+                        # Iterating a mapping yields its keys: ("in", {1: "a"})
+                        # would silently mean IN (1).
+                        raise ValueError(
+                            f"Filter on '{column}': '{op.value}' takes a list of values, "
+                            f"got {type(value).__name__}"
+                        )
+                    # The value set is read more than once (expression build,
+                    # then file pruning). A one-shot iterable (iterator,
+                    # generator, map) is empty the second time, which pruned
+                    # every file: materialise it exactly once.
+                    value = list(value)
                 expressions.append(FilterExpression(column, op, value))
         elif condition is None:
             # {"column": None} reads as "column IS NULL", but SQL equality with
